@@ -37,8 +37,9 @@ func withJoiners(cfg Cfg, n int) Cfg {
 // about 3.9 M states in 40-90 s (B9, the snapshot/compaction box, is 0.32 M of them and closes
 // in 4-9 s; B10 + B11, the apply-lag boxes, are 0.11 M + 0.06 M and close in 4-17 s + 2-8 s),
 // thorough 36 M states in 17 min at load average 60+ without the apply-lag boxes (more when idle;
-// B9, B9b, B9c are 1.24 M + 4.2 M + 1.6 M states and close in 22 + 82 + 39 s) plus 6.6 M states
-// in about 6 min at load average 45 for B10, B10p, B11, B11b, B11c. Every box stops at its share
+// B9, B9b, B9c are 1.24 M + 4.2 M + 1.6 M states and close in 22 + 82 + 39 s) plus 6.7 M states
+// in 6.5 min at load average 100+ for B10, B10b, B10p, B11, B11b, B11c (0.11 + 4.33 + 0.55 +
+// 1.04 + 0.36 + 0.34 M states; 8 + 276 + 30 + 44 + 19 + 20 s). Every box stops at its share
 // of the internal time budget (100 s quick, 24 min thorough) and reports the bound it completed.
 func makeBoxes(tier string) []*Box {
 	thorough := tier == "thorough"
@@ -127,9 +128,11 @@ func makeBoxes(tier string) []*Box {
 	// 3 holds the next page, still on {1,2,3}] drop(3's vote request to 1) .. campaign(4)
 	// (75 events, 1 deviation). If campaign(3) is not refused, 2 elects 3 by the old majority and
 	// 1 + 5 elect 4 by the new one in the same term. Budgets of that run: term <= 3, 2 conf
-	// changes, 1 lag, 1 apply, 1 drop, no proposal; the thorough box adds two proposals (so that
-	// the held page / the backlog may also start with or contain normal entries, before, between
-	// or after the conf changes) and a second apply. Stated restrictions, all part of the box
+	// changes, 1 lag, 1 apply, 1 drop, no proposal: box B10, both tiers (0.11 M states). Thorough
+	// adds B10b with two proposals (so that the held page / the backlog may also start with or
+	// contain normal entries, before, between or after the conf changes - e.g. lag(3) after the
+	// election, propose, 3 holds [p1], add 4, add 5, propose, campaign(3) ..) and a second apply
+	// (4.3 M states), and B10p with the 1 MiB page size. Stated restrictions, all part of the box
 	// definition: only node 3 lags; the first election is node 1's, the second is between nodes 3
 	// and 4; proposals and conf changes at the leader; conf changes are addV1(4) and addV1(5) in
 	// either order; deviations are message loss and apply(3) while messages are in flight.
@@ -139,14 +142,19 @@ func makeBoxes(tier string) []*Box {
 		"proposals and conf changes at the leader only", "conf changes: addV1(4), addV1(5), in either order",
 		"deviations: loss of any in-flight message, apply(3) while messages are in flight"}
 	lagBy := map[uint64][]int{0: {}, 1: {1}, 2: {3, 4}}
+	lagKinds5 := kinds(evCampaign, evConf, evLag, evApply, evUnlag)
 	add(&Box{ID: "B10", Mode: "B", What: "apply lag with two membership changes, one committed entry per Ready: a slow applier (node 3) steps messages, campaigns and receives votes while a committed page is unapplied; campaigning with committed conf changes anywhere in the apply backlog must be refused",
-		Cfg: lag5, Bud: Budget{MaxTerm: 3, Proposals: pick(0, 2), Drops: 1, ConfChanges: 2, Lags: 1, Applies: pick(1, 2)},
-		Depth: 400, MaxDev: 1, Kinds: kinds(evCampaign, evConf, evLag, evApply, evUnlag) | uint32(pick(0, 1<<evPropose)), Devs: kinds(evDrop, evApply),
-		LeaderPropose: true, LagAt: 3, CampaignBy: lagBy, ConfVariants: []uint16{ccAddV1, ccAddV1Second}, Restrictions: lagRestr, Share: pick(20, 300)})
+		Cfg: lag5, Bud: Budget{MaxTerm: 3, Drops: 1, ConfChanges: 2, Lags: 1, Applies: 1},
+		Depth: 400, MaxDev: 1, Kinds: lagKinds5, Devs: kinds(evDrop, evApply),
+		LeaderPropose: true, LagAt: 3, CampaignBy: lagBy, ConfVariants: []uint16{ccAddV1, ccAddV1Second}, Restrictions: lagRestr, Share: pick(20, 25)})
 	if thorough {
-		add(&Box{ID: "B10p", Mode: "B", What: "as B10 with raftexample's 1 MiB page size: the whole apply backlog is one page",
+		add(&Box{ID: "B10b", Mode: "B", What: "as B10 with two proposals (normal entries before, between and after the conf changes: the held page and the first page of the backlog may be normal entries or conf changes) and two applies",
+			Cfg: lag5, Bud: Budget{MaxTerm: 3, Proposals: 2, Drops: 1, ConfChanges: 2, Lags: 1, Applies: 2},
+			Depth: 400, MaxDev: 1, Kinds: lagKinds5 | 1<<evPropose, Devs: kinds(evDrop, evApply),
+			LeaderPropose: true, LagAt: 3, CampaignBy: lagBy, ConfVariants: []uint16{ccAddV1, ccAddV1Second}, Restrictions: lagRestr, Share: 320})
+		add(&Box{ID: "B10p", Mode: "B", What: "as B10 with raftexample's 1 MiB page size (the whole apply backlog is one page) and one proposal",
 			Cfg: withJoiners(cfgPlain(3, true), 2), Bud: Budget{MaxTerm: 3, Proposals: 1, Drops: 1, ConfChanges: 2, Lags: 1, Applies: 1},
-			Depth: 400, MaxDev: 1, Kinds: kinds(evCampaign, evPropose, evConf, evLag, evApply, evUnlag), Devs: kinds(evDrop, evApply),
+			Depth: 400, MaxDev: 1, Kinds: lagKinds5 | 1<<evPropose, Devs: kinds(evDrop, evApply),
 			LeaderPropose: true, LagAt: 3, CampaignBy: lagBy, ConfVariants: []uint16{ccAddV1, ccAddV1Second}, Restrictions: lagRestr, Share: 50})
 	}
 	// B11: three members and a joiner, any node may lag (a leader that is slow in applying its
